@@ -856,6 +856,16 @@ ALPHABETS = {
 
 
 def _alphabet(which):
+    if which.endswith("-pairs"):
+        # composite letters: one event, or two events on DIFFERENT files, then one scan - several
+        # files change between two scans (rm *.json, an editor saving two files, ...)
+        fnames, base = _alphabet(which[:-len("-pairs")])
+        letters = [[e] for e in base]
+        for a in base:
+            for b in base:
+                if a["f"] != b["f"]:
+                    letters.append([a, b])
+        return fnames, letters
     nfiles, docs, with_bad = ALPHABETS[which]
     letters = []
     for f in range(nfiles):
@@ -899,8 +909,15 @@ def w_frontier(which, words, shard):
     try:
         fnames, letters = _alphabet(which)
         for w in words:
-            spec = {"part": "seq", "fnames": fnames, "auto_scan": True,
-                    "events": [letters[i] for i in w]}
+            if which.endswith("-pairs"):
+                evs = []
+                for i in w:
+                    evs.extend(letters[i])
+                    evs.append({"op": "s"})
+                spec = {"part": "seq", "fnames": fnames, "auto_scan": False, "events": evs}
+            else:
+                spec = {"part": "seq", "fnames": fnames, "auto_scan": True,
+                        "events": [letters[i] for i in w]}
             res = run_seq(spec, base, want_state=True)
             _record(col, spec, res, ["seq:frontier-%s-depth-%d" % (which, len(w))])
             col.bump("scans", res["scans"])
@@ -1306,9 +1323,10 @@ def run(ctx):
     dicts = []
     for fn in ("w_exhaustive", "w_random_seq", "w_enum_docs", "w_random_docs"):
         dicts.extend(core.run_sharded("vlib.props.c18", fn, by_fn[fn]))
-    fdepth = {"edit": ctx.n(8, 11), "small": ctx.n(6, 8), "three": ctx.n(5, 7)}
+    fdepth = {"edit": ctx.n(8, 11), "small": ctx.n(6, 8), "three": ctx.n(5, 7),
+              "edit-pairs": ctx.n(4, 5), "three-pairs": ctx.n(2, 3)}
     fstats = {}
-    for which in ("edit", "small", "three"):
+    for which in ("edit", "small", "three", "edit-pairs", "three-pairs"):
         fd, st = explore_frontier(which, fdepth[which], ns)
         dicts.extend(fd)
         fstats[which] = st
@@ -1326,9 +1344,12 @@ def run(ctx):
         "remove}), %d over the 10 letters and %d over the 9 letters above, where a word is only "
         "extended if the situation it leads to (directory contents, every attribute of the "
         "monitor object, the store, the model's state; time stamps by rank) was not reached by "
-        "an earlier word; the random parts and the document part are not exhaustive"
+        "an earlier word; the same with composite letters (one event or two events on different "
+        "files, then ONE scan) to %d letters over the 8-letter and %d over the 9-letter alphabet; "
+        "the random parts and the document part are not exhaustive"
         % (depths["full"], depths["small"], depths["three"], depths["deep"],
-           fdepth["edit"], fdepth["small"], fdepth["three"]))
+           fdepth["edit"], fdepth["small"], fdepth["three"], fdepth["edit-pairs"],
+           fdepth["three-pairs"]))
     return col
 
 
